@@ -15,7 +15,7 @@ META = dict(
     ),
     outside=["the samplers themselves (SciPy qmc, OpenTURNS, pyDOE, RNG code): that they return points of the unit cube, their sample counts and seed determinism are assumptions, not results",
              "CustomDOE file parsing", "the level computation of full-factorial designs (int(n ** (1/d)) is a float operation)"],
-    stubs=["diagonal_doe.hstack -> object-dtype array of the same floats (diagonal harness)", "unit sampler -> symbolic matrix in [0,1]^{S x d}", "float bounds injected into Variable.__dict__"],
+    stubs=["oat_doe.array -> object-dtype array (oat harness)", "diagonal_doe.hstack -> object-dtype array of the same floats (diagonal harness)", "unit sampler -> symbolic matrix in [0,1]^{S x d}", "float bounds injected into Variable.__dict__"],
     assumptions=["unit samples lie in [0,1]", "lb <= ub, integer bounds integral"],
 )
 
@@ -188,6 +188,55 @@ def _exact(fr):
     return SymReal(_ratval(fr))
 
 
+def h_oat(ctx, cfg):
+    """OATDOE / MorrisDOE (pure Python): d+1 points per initial point, consecutive points differ by +-step*(u-l) in one component,
+    every point inside the bounds (for a relative step <= 1/2: a larger step cannot always be accommodated; the configuration
+    with step 0.6 exhibits the recorded finding)."""
+    from gemseo.algos.doe.factory import DOELibraryFactory
+
+    if ctx.symbolic:
+        import gemseo.algos.doe.oat_doe.oat_doe as oat
+        from symgem.core import as_symarray
+
+        ctx.patch(oat, "array", lambda pts, *a, **k: as_symarray(pts))   # array(list of arrays): exact object storage
+    ds, info = build_space(ctx, LAYOUTS[cfg["layout"]])
+    d = info.n
+    step = cfg["step"]
+    r = cfg.get("r", 1)
+    inits = []
+    for q in range(r):
+        p0 = [ctx.real(f"x{q}_{j}") for j in range(d)]
+        for v in p0:
+            ctx.assume(ctx.and_(ctx.le(0.0, v), ctx.le(v, 1.0)))
+        inits.append(p0)
+    if cfg["algo"] == "OATDOE":
+        out = DOELibraryFactory().create("OATDOE").compute_doe(ds, step=step, initial_point=ctx.array(inits[0]))
+    else:
+        out = DOELibraryFactory().create("MorrisDOE").compute_doe(ds, step=step, doe_algo_name="CustomDOE",
+                                                                   doe_algo_settings={"samples": ctx.array(inits)})
+    ctx.observe("samples", np.ravel(out))
+    if not check_shape(ctx, "r*(d+1) samples", out, (r * (d + 1), d)):
+        return
+    sm = _plain(out) if isinstance(out, np.ndarray) else np.asarray(out, dtype=object)
+    for q in range(r):
+        base = q * (d + 1)
+        for j in range(d):
+            ctx.check(f"replicate {q}: first point is the image of the initial point [{j}]",
+                      ctx.eq(_py(sm[base, j]), info.lb[j] + inits[q][j] * (info.ub[j] - info.lb[j])))
+        for k in range(d + 1):
+            for j in range(d):
+                v = _py(sm[base + k, j])
+                ctx.check(f"replicate {q}: sample[{k},{j}] within the bounds", ctx.and_(ctx.le(info.lb[j], v), ctx.le(v, info.ub[j])))
+                if k > 0:
+                    prev = _py(sm[base + k - 1, j])
+                    if j == k - 1:
+                        delta = step * (info.ub[j] - info.lb[j])
+                        ctx.check(f"replicate {q}: sample {k} moves component {j} by +-step*(u-l)",
+                                  ctx.or_(ctx.eq(v - prev, delta), ctx.eq(prev - v, delta)))
+                    else:
+                        ctx.check(f"replicate {q}: sample {k} keeps component {j}", ctx.eq(v, prev))
+
+
 def configs(tier):
     out = []
     quick = tier == "quick"
@@ -203,6 +252,11 @@ def configs(tier):
     for lay in ("B", "B,B", "Ci", "iC"):
         for n_s in (2, 3, 5):
             out.append(("diagonal", dict(layout=lay, n_samples=n_s)))
+    for step in (0.25, 0.5, 0.6):
+        out.append(("oat", dict(layout="B", algo="OATDOE", step=step)))
+        out.append(("oat", dict(layout="BB", algo="OATDOE", step=step)))
+    out.append(("oat", dict(layout="B,B", algo="MorrisDOE", step=0.25, r=2)))
+    out.append(("oat", dict(layout="B", algo="MorrisDOE", step=0.5, r=2)))
     out.append(("diagonal", dict(layout="B,B", n_samples=3, reverse=["yy"])))
     out.append(("diagonal", dict(layout="BB", n_samples=3, reverse=["1"])))
     for lay in ("B", "BB", "Ci", "iC"):
@@ -219,4 +273,4 @@ def crosshair_targets(tier):
             for n in ("_explicit_seed_returned", "_default_seed_sequence", "_explicit_then_default", "_two_seeders_agree")]
 
 
-HARNESSES = {"compute_doe": h_compute_doe, "execute": h_execute, "custom": h_custom, "diagonal": h_diagonal}
+HARNESSES = {"compute_doe": h_compute_doe, "execute": h_execute, "custom": h_custom, "diagonal": h_diagonal, "oat": h_oat}
